@@ -16,6 +16,7 @@ import (
 	"encoding/json"
 	"flag"
 	"fmt"
+	"io"
 	"math/rand"
 	"os"
 	"os/exec"
@@ -46,7 +47,9 @@ type desc struct {
 	Pool   [][]int  `json:"pool"`
 	Seq    []int    `json:"seq"` // 1-based pool indices
 	Cmd    string   `json:"cmd"`
-	Ext    []int    `json:"ext"`
+	Mt     string   `json:"mt"`    // matcher: re | ren (named groups k s v) | dis (dissect)
+	Ext    []int    `json:"ext"`   // atoms: 1..3 group, 4 {line}, 5 {src}, 6 {.}, 7 {#}, 8 {.#}
+	Delim  []int    `json:"delim"` // --delim (table / heatmap / spark); empty: separate -e arguments
 	Ig     int      `json:"ig"`
 	Iv     []int    `json:"iv"`
 	Grp    int      `json:"grp"`
@@ -54,7 +57,13 @@ type desc struct {
 	Gname  []int    `json:"gname"`
 	Anames [][]int  `json:"anames"`
 	Expect *expect  `json:"expect,omitempty"`
+	Lay    [][2]int `json:"lay,omitempty"` // TLC's layout of a descriptor using {line} / {src}: files f0.log, f1.log hold these ranges
 	Big    bool     `json:"big,omitempty"`
+	// test-selection hints of the seeded families (the expectation never depends on them)
+	Paced int `json:"paced,omitempty"` // >0: stdin is also fed in bursts separated by pauses
+	Head  int `json:"head,omitempty"`  // no new key appears after the first Head lines
+	Tail  int `json:"tail,omitempty"`  // the last Tail lines are no samples
+	Sched int `json:"sched,omitempty"` // >0: an all-workers-busy command line is executed Sched times (a sample of OS schedules)
 	// read-buffer geometry corpora: fixed-width lines; Width = bytes per line incl. the terminator (0 = not geometric)
 	Width int    `json:"width,omitempty"`
 	Eol   string `json:"eol,omitempty"` // "" / "lf": lines end in LF; "crlf": in CR LF (the scanner drops the CR)
@@ -62,6 +71,24 @@ type desc struct {
 
 // the pipeline reads through a 128 KiB buffer (readahead / batchers ReadAheadBufferSize)
 const readBuf = 131072
+
+func (d *desc) layoutDep() bool {
+	for _, a := range d.Ext {
+		if a == 4 || a == 5 {
+			return true
+		}
+	}
+	return false
+}
+
+func (d *desc) hasJSON() bool {
+	for _, a := range d.Ext {
+		if a >= 6 {
+			return true
+		}
+	}
+	return false
+}
 
 func (d *desc) orderFree() bool {
 	for _, a := range d.Acc {
@@ -85,6 +112,10 @@ func c03Gen(args []string) error {
 	out := fs.String("out", "desc.ndjson", "")
 	n := fs.Int("n", 7, "descriptors")
 	ngeom := fs.Int("geom", 0, "read-buffer geometry descriptors")
+	nsched := fs.Int("sched", 0, "schedule-sample descriptors (dissect, all workers busy, repeated executions)")
+	schedRuns := fs.Int("sched-runs", 4, "executions per schedule-sample descriptor")
+	npaced := fs.Int("paced", 0, "paced-stdin descriptors")
+	pacedRuns := fs.Int("paced-runs", 3, "paced executions per paced-stdin descriptor")
 	minLines := fs.Int("min", 1000, "")
 	maxLines := fs.Int("max", 10000, "")
 	fs.Parse(args)
@@ -96,8 +127,10 @@ func c03Gen(args []string) error {
 	defer w.Close()
 	cmds := cmdFamily()
 	genGeom(w, *ngeom)
+	genSched(w, *nsched, *schedRuns)
+	genPaced(w, *npaced, *pacedRuns)
 	for i := 0; i < *n; i++ {
-		cd := cmds[i%len(cmds)]
+		cd := cmds[(i+7*(int(vh.Seed())-1))%len(cmds)]
 		d := cd
 		d.Big = true
 		nkeys := 3 + rng.Intn(18)
@@ -165,7 +198,7 @@ func genGeom(w *vh.NdWriter, n int) {
 		cmd   int
 	}
 	mk := func(cmd string, ext []int) desc {
-		return desc{Cmd: cmd, Ext: ext, Iv: []int{}, Acc: []string{}, Gname: vh.BS("k"), Anames: [][]int{}}
+		return desc{Cmd: cmd, Mt: "re", Ext: ext, Delim: []int{}, Iv: []int{}, Acc: []string{}, Gname: vh.BS("k"), Anames: [][]int{}}
 	}
 	cmds := []desc{mk("histogram", []int{1}), mk("table", []int{1, 2, 3}), mk("histogram", []int{1, 3}),
 		mk("bargraph", []int{1, 2, 3}), mk("heatmap", []int{2, 1})}
@@ -241,16 +274,20 @@ func pick(rng *rand.Rand, from []string, n int) []string {
 }
 
 // the command descriptors used for the large corpora (same family as Rare_Gen.tla)
+func mkCmd(cmd, mt string, ext []int, delim string, ig int, grp int, acc ...string) desc {
+	d := desc{Cmd: cmd, Mt: mt, Ext: ext, Delim: vh.BS(delim), Ig: ig, Iv: []int{}, Grp: grp, Acc: acc, Gname: vh.BS("k"), Anames: [][]int{}}
+	if d.Acc == nil {
+		d.Acc = []string{}
+	}
+	for _, a := range acc {
+		d.Anames = append(d.Anames, vh.BS(accName(a)))
+	}
+	return d
+}
+
 func cmdFamily() []desc {
 	mk := func(cmd string, ext []int, ig int, grp int, acc ...string) desc {
-		d := desc{Cmd: cmd, Ext: ext, Ig: ig, Iv: []int{}, Grp: grp, Acc: acc, Gname: vh.BS("k"), Anames: [][]int{}}
-		if d.Acc == nil {
-			d.Acc = []string{}
-		}
-		for _, a := range acc {
-			d.Anames = append(d.Anames, vh.BS(accName(a)))
-		}
-		return d
+		return mkCmd(cmd, "re", ext, "", ig, grp, acc...)
 	}
 	return []desc{
 		mk("histogram", []int{1, 3}, 0, 0),
@@ -264,6 +301,123 @@ func cmdFamily() []desc {
 		mk("reduce", []int{1, 2, 3}, 0, 2, "sum", "last"),
 		mk("bargraph", []int{2, 1}, 0, 0),
 		mk("reduce", []int{1, 2, 3}, 0, 0, "count", "sum"),
+		// dissect / named groups, JSON views, --delim
+		mkCmd("table", "dis", []int{1, 2, 3}, "::", 0, 0),
+		mkCmd("histogram", "ren", []int{6}, "", 0, 0),
+		mkCmd("heatmap", "re", []int{1, 2, 3}, " - ", 0, 0),
+		mkCmd("histogram", "dis", []int{7, 3}, "", 2, 0),
+		mkCmd("spark", "ren", []int{2, 1, 3}, "\u2192", 0, 0),
+		mkCmd("bargraph", "dis", []int{1, 8}, "", 0, 0),
+		mkCmd("table", "re", []int{1, 2, 3}, ";", 2, 0),
+	}
+}
+
+// genSched: dissect corpora whose fields sit at different offsets from line to line (keys of many lengths), large
+// enough to keep eight workers busy; see schedVariants
+func genSched(w *vh.NdWriter, n, runs int) {
+	rng := vh.NewRand(5)
+	cmds := []desc{
+		mkCmd("histogram", "dis", []int{1}, "", 0, 0),
+		mkCmd("table", "dis", []int{1, 2, 3}, "", 0, 0),
+		mkCmd("histogram", "dis", []int{2, 3}, "", 0, 0),
+		mkCmd("bargraph", "dis", []int{1, 2}, "", 0, 0),
+	}
+	for i := 0; i < n; i++ {
+		d := cmds[(i+int(vh.Seed())-1)%len(cmds)]
+		d.Big, d.Sched = true, runs
+		nkeys := 30 + rng.Intn(20)
+		var keys []string
+		for k := 0; k < nkeys; k++ {
+			keys = append(keys, strings.Repeat(string(rune('a'+k%26)), 1+(k*7)%11)+fmt.Sprint(k))
+		}
+		pool := map[string]int{}
+		nlines := 12000 + rng.Intn(4000)
+		if i%2 == 1 { // a run that lasts longer than the render interval: periodic renders overlap the sampling
+			nlines = 56000 + rng.Intn(8000)
+		}
+		d.Pool, d.Seq = nil, make([]int, 0, nlines)
+		for len(d.Seq) < nlines {
+			line := keys[rng.Intn(len(keys))] + "|" + subPool[rng.Intn(3)] + strings.Repeat("y", rng.Intn(6)) + "|" + incGood[rng.Intn(len(incGood))]
+			if i%2 == 1 { // fewer distinct lines: the reference fold is memoised per distinct line
+				line = keys[rng.Intn(len(keys))] + "|" + subPool[rng.Intn(3)] + "|" + incGood[rng.Intn(4)]
+			}
+			ix, ok := pool[line]
+			if !ok {
+				d.Pool = append(d.Pool, vh.BS(line))
+				ix = len(d.Pool)
+				pool[line] = ix
+			}
+			d.Seq = append(d.Seq, ix)
+		}
+		w.Write(d)
+	}
+}
+
+// genPaced: small corpora for the paced-stdin executions: every key appears within the first Head lines, the
+// lines after them repeat known keys (with varying increments), the last Tail lines are no samples (unmatched or
+// ignored); commands of every aggregator, some using {line} / {src} (the numbering of a source must not depend
+// on how its lines are cut into batches)
+func genPaced(w *vh.NdWriter, n, runs int) {
+	rng := vh.NewRand(7)
+	cmds := []desc{
+		mkCmd("histogram", "re", []int{1}, "", 0, 0),
+		mkCmd("histogram", "re", []int{4}, "", 0, 0),
+		mkCmd("table", "ren", []int{1, 2, 3}, "", 0, 0),
+		mkCmd("histogram", "dis", []int{1, 3}, "", 2, 0),
+		mkCmd("table", "re", []int{1, 4}, "::", 0, 0),
+		mkCmd("bargraph", "re", []int{1, 2, 3}, "", 0, 0),
+		mkCmd("histogram", "re", []int{5, 4}, "", 0, 0),
+		mkCmd("reduce", "re", []int{1, 2, 3}, "", 0, 1, "count", "sum", "max"),
+		mkCmd("heatmap", "re", []int{1, 2, 3}, "", 0, 0),
+		mkCmd("analyze", "re", []int{3}, "", 0, 0),
+		mkCmd("spark", "dis", []int{2, 1, 3}, ";", 0, 0),
+		mkCmd("bargraph", "ren", []int{1, 4}, "", 0, 0),
+	}
+	for i := 0; i < n; i++ {
+		d := cmds[(i+int(vh.Seed())-1)%len(cmds)]
+		d.Paced = runs
+		keys := pick(rng, keyPool, 2+rng.Intn(5))
+		subs := pick(rng, subPool, 1+rng.Intn(3))
+		if d.Ig != 0 {
+			d.Iv = vh.BS("y")
+		}
+		pool := map[string]int{}
+		d.Pool, d.Seq = nil, nil
+		add := func(line string) {
+			ix, ok := pool[line]
+			if !ok {
+				d.Pool = append(d.Pool, vh.BS(line))
+				ix = len(d.Pool)
+				pool[line] = ix
+			}
+			d.Seq = append(d.Seq, ix)
+		}
+		inc := func() string {
+			if d.Cmd == "analyze" {
+				return fmt.Sprint(rng.Intn(50))
+			}
+			return incGood[rng.Intn(len(incGood))]
+		}
+		for _, k := range keys { // every key and sub-key within the head
+			for _, sk := range subs {
+				add(k + "|" + sk + "|" + inc())
+			}
+		}
+		d.Head = len(d.Seq)
+		for j := 12 + rng.Intn(30); j > 0; j-- {
+			add(keys[rng.Intn(len(keys))] + "|" + subs[rng.Intn(len(subs))] + "|" + inc())
+		}
+		if i%2 == 0 {
+			d.Tail = 1 + rng.Intn(3)
+			for j := 0; j < d.Tail; j++ {
+				if d.Ig != 0 && j == 0 {
+					add(keys[0] + "|y|1")
+				} else {
+					add(junk[rng.Intn(2)])
+				}
+			}
+		}
+		w.Write(d)
 	}
 }
 
@@ -293,6 +447,8 @@ func accExpr(tag string) string {
 
 // ------------------------------------------------------------------ run
 type variant struct {
+	Pace     [][2]int // stdin: bursts of [n lines, pause in ms after them]; the rest follows at once
+	NoB1     bool     // the layout is not the one TLC's expectation of the descriptor was computed for
 	Ranges   [][2]int
 	Kinds    []string // plain | gzip, per range
 	Stdin    bool
@@ -304,12 +460,44 @@ type variant struct {
 	Procs    int
 }
 
+const matchExprNamed = `^(?P<k>[^|]*)\|(?P<s>[^|]*)\|(?P<v>[^|]*)$`
+const dissectExpr = `%{k}|%{s}|%{v}`
+
+func atomExpr(d *desc, a int) string {
+	switch a {
+	case 1, 2, 3:
+		if d.Mt == "ren" || d.Mt == "dis" {
+			return "{" + string("ksv"[a-1]) + "}"
+		}
+		return fmt.Sprintf("{%d}", a)
+	case 4:
+		return "{line}"
+	case 5:
+		return "{src}"
+	case 6:
+		return "{.}"
+	case 7:
+		return "{#}"
+	case 8:
+		return "{.#}"
+	}
+	panic("atom")
+}
+
 func cmdArgs(d *desc, kind string) []string {
 	a := []string{}
 	if kind == "snap" {
 		a = append(a, "--nocolor", "--noformat")
 	}
-	a = append(a, d.Cmd, "-m", matchExpr)
+	a = append(a, d.Cmd)
+	switch d.Mt {
+	case "ren":
+		a = append(a, "-m", matchExprNamed)
+	case "dis":
+		a = append(a, "-d", dissectExpr)
+	default:
+		a = append(a, "-m", matchExpr)
+	}
 	if d.Cmd == "reduce" {
 		if d.Grp != 0 {
 			a = append(a, "-g", fmt.Sprintf("k={%d}", d.Grp))
@@ -317,13 +505,20 @@ func cmdArgs(d *desc, kind string) []string {
 		for _, t := range d.Acc {
 			a = append(a, "-a", accExpr(t))
 		}
+	} else if len(d.Delim) > 0 {
+		parts := make([]string, len(d.Ext))
+		for i, g := range d.Ext {
+			parts[i] = atomExpr(d, g)
+		}
+		dl := string(vh.FromInts(d.Delim))
+		a = append(a, "-e", strings.Join(parts, dl), "--delim", dl)
 	} else {
 		for _, g := range d.Ext {
-			a = append(a, "-e", fmt.Sprintf("{%d}", g))
+			a = append(a, "-e", atomExpr(d, g))
 		}
 	}
 	if d.Ig != 0 {
-		a = append(a, "-i", fmt.Sprintf("{eq {%d} %s}", d.Ig, string(vh.FromInts(d.Iv))))
+		a = append(a, "-i", fmt.Sprintf("{eq %s %s}", atomExpr(d, d.Ig), string(vh.FromInts(d.Iv))))
 	}
 	if kind == "csv" {
 		a = append(a, "--csv", "-")
@@ -375,14 +570,142 @@ func geomVariants(rng *rand.Rand, d *desc, nv int) []variant {
 	return vs
 }
 
+func tuned(rng *rand.Rand, v variant) variant {
+	v.Workers = []int{1, 2, 8}[rng.Intn(3)]
+	v.BatchBuf = []int{1, 3}[rng.Intn(2)]
+	v.Readers = []int{1, 3}[rng.Intn(2)]
+	v.Procs = []int{1, 4, 16}[rng.Intn(3)]
+	return v
+}
+
+// schedVariants: one sequential execution, then Sched executions of ONE command line that keeps every worker
+// busy at the same time (many small batches, more workers than readers, all processors): the executions differ
+// in nothing but the OS schedule, and each of them must give the reference aggregate.
+func schedVariants(rng *rand.Rand, d *desc) []variant {
+	n := len(d.Seq)
+	whole := [][2]int{{1, n}}
+	vs := []variant{{Ranges: whole, Kinds: []string{"plain"}, Workers: 1, Batch: 1000, BatchBuf: 1, Readers: 1, Procs: 1}}
+	a, b := n/3, 2*n/3
+	three := [][2]int{{1, a}, {a + 1, b}, {b + 1, n}}
+	for i := 0; i < d.Sched; i++ {
+		v := variant{Ranges: three, Kinds: []string{"plain", "plain", "plain"}, Workers: 8, Batch: 50, BatchBuf: 16, Readers: 3, Procs: 16}
+		switch i % 3 {
+		case 1:
+			v.Ranges, v.Kinds, v.Workers, v.Batch, v.Procs = whole, []string{"plain"}, 4, 7, 4
+		case 2:
+			v.Ranges, v.Kinds, v.Workers, v.Batch, v.Procs = whole, []string{"plain"}, 2, 1, 4
+		}
+		vs = append(vs, v)
+	}
+	return vs
+}
+
+// pacedVariants: the same bytes from a file, from stdin at once, and from stdin in bursts separated by pauses
+// longer than the periodic render interval and than the batch auto-flush interval of the reader: the pacing of
+// the input is one more thing the result must not depend on.
+func pacedVariants(rng *rand.Rand, d *desc) []variant {
+	n := len(d.Seq)
+	whole := [][2]int{{1, n}}
+	base := variant{Ranges: whole, Kinds: []string{"plain"}}
+	v0 := base
+	v0.Workers, v0.Batch, v0.BatchBuf, v0.Readers, v0.Procs = 1, 1000, 1, 1, 1
+	v1 := tuned(rng, base)
+	v1.Stdin, v1.Batch = true, 1000
+	vs := []variant{v0, v1}
+	head := d.Head
+	if head < 1 || head >= n {
+		head = 1
+	}
+	cutIn := func(lo, hi int) int { // a cut after a line in lo..hi (at least one line on both sides)
+		if hi > n-1 {
+			hi = n - 1
+		}
+		if lo < 1 {
+			lo = 1
+		}
+		if hi < lo {
+			return lo
+		}
+		return lo + rng.Intn(hi-lo+1)
+	}
+	mk := func(batch int, cuts []int, ms func() int) variant {
+		v := tuned(rng, base)
+		v.Stdin, v.Batch = true, batch
+		sort.Ints(cuts)
+		prev := 0
+		for _, c := range cuts {
+			if c <= prev || c >= n {
+				continue
+			}
+			v.Pace = append(v.Pace, [2]int{c - prev, ms()})
+			prev = c
+		}
+		return v
+	}
+	long := func() int { return 400 + rng.Intn(80) }  // > batch auto-flush interval
+	tick := func() int { return 230 + rng.Intn(70) }  // > periodic render interval
+	for i := 0; i < d.Paced; i++ {
+		switch i % 3 {
+		case 0: // default batch size: partly filled batches are flushed by the timer; later lines repeat known keys
+			vs = append(vs, mk(1000, []int{cutIn(head, n-2), cutIn(head, n-1)}, long))
+		case 1: // immediate batches; renders happen between the bursts; the last burst holds no sample if there is such a tail
+			cuts := []int{cutIn(head, n-1), cutIn(head, n-1)}
+			if d.Tail > 0 && d.Tail < n {
+				cuts = append(cuts, n-d.Tail)
+			}
+			vs = append(vs, mk(1, cuts, tick))
+		default:
+			vs = append(vs, mk(7, []int{cutIn(1, head), cutIn(head, n-1), n - 1 - rng.Intn(2)}, long))
+		}
+	}
+	return vs
+}
+
+// several sources through ONE worker, one after the other or interleaved line by line; the first source may
+// hold a single line (so consecutive lines of the worker carry equal line numbers of different sources)
+func oneWorkerVariant(rng *rand.Rand, d *desc) variant {
+	n := len(d.Seq)
+	v := variant{Workers: 1, Readers: []int{1, 3}[rng.Intn(2)], Batch: []int{1, 1000}[rng.Intn(2)], BatchBuf: []int{1, 3}[rng.Intn(2)],
+		Procs: []int{1, 4}[rng.Intn(2)]}
+	cuts := map[int]bool{0: true, n: true}
+	if rng.Intn(2) == 0 {
+		cuts[1] = true
+	}
+	for k := 1 + rng.Intn(3); k > 0; k-- {
+		cuts[rng.Intn(n+1)] = true
+	}
+	if v.Batch == 1000 && n > 2100 { // a source of 1 + k*batch lines ends with a batch of one line
+		cuts[1001] = true
+	}
+	var cs []int
+	for c := range cuts {
+		cs = append(cs, c)
+	}
+	sort.Ints(cs)
+	for i := 0; i+1 < len(cs); i++ {
+		v.Ranges = append(v.Ranges, [2]int{cs[i] + 1, cs[i+1]})
+		v.Kinds = append(v.Kinds, "plain")
+	}
+	return v
+}
+
 func variants(rng *rand.Rand, d *desc, nv int) []variant {
 	if d.Width > 0 {
 		return geomVariants(rng, d, nv)
+	}
+	if d.Sched > 0 {
+		return schedVariants(rng, d)
+	}
+	if d.Paced > 0 {
+		return pacedVariants(rng, d)
 	}
 	n := len(d.Seq)
 	seqOnly := !d.orderFree()
 	whole := [][2]int{{1, n}}
 	vs := []variant{{Ranges: whole, Kinds: []string{"plain"}, Workers: 1, Batch: 1000, BatchBuf: 1, Readers: 1, Procs: 1}}
+	if len(d.Lay) > 0 {
+		vs[0].Ranges, vs[0].Kinds = d.Lay, []string{"plain", "plain"}
+	}
 	for len(vs) < nv {
 		v := variant{
 			Workers:  []int{1, 2, 8}[rng.Intn(3)],
@@ -399,9 +722,19 @@ func variants(rng *rand.Rand, d *desc, nv int) []variant {
 		}
 		shape := rng.Intn(10)
 		switch {
+		case d.hasJSON() && n >= 2 && len(vs) == 1 && !seqOnly:
+			v = oneWorkerVariant(rng, d)
 		case shape == 0 && len(vs) >= 2:
 			v.Stdin = true
+			v.NoB1 = len(d.Lay) > 0
 			v.Ranges, v.Kinds = whole, []string{"plain"}
+		case len(d.Lay) > 0:
+			v.Ranges = d.Lay
+			v.Kinds = []string{[]string{"plain", "gzip"}[rng.Intn(2)], "plain"}
+			v.NoB1 = v.Kinds[0] == "gzip" // {src} reads f0.log.gz: judged by Rare_Trace against the layout of the run
+			if shape == 1 || (d.Expect != nil && d.Expect.Code != 0 && !hasMissing(vs)) {
+				v.Missing = 1
+			}
 		default:
 			k := 1 + rng.Intn(4)
 			if k > n+1 {
@@ -506,8 +839,14 @@ func c03Run(args []string) error {
 				}
 			}
 			g := &groups[gi]
-			g.reset = M{"event": "reset", "t": gi + 1, "pool": d.Pool, "seq": d.Seq, "cmd": d.Cmd, "ext": d.Ext, "ig": d.Ig,
-				"iv": d.Iv, "grp": d.Grp, "acc": d.Acc, "gname": d.Gname, "anames": d.Anames}
+			if d.Mt == "" {
+				d.Mt = "re"
+			}
+			if d.Delim == nil {
+				d.Delim = []int{}
+			}
+			g.reset = M{"event": "reset", "t": gi + 1, "pool": d.Pool, "seq": d.Seq, "cmd": d.Cmd, "mt": d.Mt, "ext": d.Ext,
+				"delim": d.Delim, "ig": d.Ig, "iv": d.Iv, "grp": d.Grp, "acc": d.Acc, "gname": d.Gname, "anames": d.Anames}
 			dir := filepath.Join(*work, fmt.Sprintf("g%d", gi))
 			for vi, v := range variants(rng, d, n) {
 				vdir := filepath.Join(dir, fmt.Sprintf("v%d", vi))
@@ -533,7 +872,7 @@ func c03Run(args []string) error {
 					if !v.Stdin {
 						argv = append(argv, files...)
 					}
-					code, stdout, stderr := execRare(*bin, argv, stdin, v.Procs, vdir)
+					code, stdout, stderr := execRare(*bin, argv, stdin, v.Pace, v.Procs, vdir)
 					msg := "none"
 					if strings.Contains(stderr, "Read errors") {
 						msg = "read"
@@ -541,18 +880,28 @@ func c03Run(args []string) error {
 						msg = "parse"
 					}
 					rs := make([][]int, len(v.Ranges))
+					names := make([][]int, len(v.Ranges))
 					for i, r := range v.Ranges {
 						rs[i] = []int{r[0], r[1]}
+						if v.Stdin {
+							names[i] = vh.BS("<stdin>")
+						} else {
+							names[i] = vh.BS(fileName(i, v.Kinds[i]))
+						}
+					}
+					pace := make([][]int, len(v.Pace))
+					for i, p := range v.Pace {
+						pace[i] = []int{p[0], p[1]}
 					}
 					serr := stderr
 					if len(serr) > 300 {
 						serr = serr[:300]
 					}
-					rec := M{"event": "run", "kind": kind, "ranges": rs, "kinds": v.Kinds, "stdin": v.Stdin, "missing": v.Missing,
+					rec := M{"event": "run", "kind": kind, "ranges": rs, "names": names, "pace": pace, "kinds": v.Kinds, "stdin": v.Stdin, "missing": v.Missing,
 						"readers": v.Readers, "workers": v.Workers, "batch": v.Batch, "bbuf": v.BatchBuf, "gomaxprocs": v.Procs,
 						"exit": code, "msg": msg, "stdout": vh.B(stdout), "argv": argv, "stderr": serr, "eol": d.Eol, "width": d.Width}
 					g.runs = append(g.runs, rec)
-					if d.Expect != nil && (d.orderFree() || (v.Workers == 1 && v.Readers == 1)) {
+					if d.Expect != nil && !v.NoB1 && (d.orderFree() || (v.Workers == 1 && v.Readers == 1)) {
 						g.b1++
 						if why := b1Compare(d, kind, v.Missing, code, msg, stdout); why != "" {
 							g.mism = append(g.mism, M{"t": gi + 1, "why": why, "cmd": d.Cmd, "argv": argv, "stdout": string(stdout),
@@ -606,6 +955,14 @@ func lineBytes(d *desc, lo, hi int) []byte {
 	return b.Bytes()
 }
 
+// the file arguments are relative to the working directory of the run: {src} reads exactly these names
+func fileName(i int, kind string) string {
+	if kind == "gzip" {
+		return fmt.Sprintf("f%d.log.gz", i)
+	}
+	return fmt.Sprintf("f%d.log", i)
+}
+
 func materialise(d *desc, v *variant, dir string) (files []string, stdin []byte, err error) {
 	if err = os.MkdirAll(dir, 0o755); err != nil {
 		return
@@ -615,23 +972,22 @@ func materialise(d *desc, v *variant, dir string) (files []string, stdin []byte,
 	}
 	for i, r := range v.Ranges {
 		data := lineBytes(d, r[0], r[1])
-		name := filepath.Join(dir, fmt.Sprintf("f%d.log", i))
+		name := fileName(i, v.Kinds[i])
 		if v.Kinds[i] == "gzip" {
-			name += ".gz"
 			var zb bytes.Buffer
 			zw := gzip.NewWriter(&zb)
 			zw.Write(data)
 			zw.Close()
 			data = zb.Bytes()
 		}
-		if err = os.WriteFile(name, data, 0o644); err != nil {
+		if err = os.WriteFile(filepath.Join(dir, name), data, 0o644); err != nil {
 			return
 		}
 		files = append(files, name)
 	}
 	for i := 0; i < v.Missing; i++ {
 		// a path that names no file; placed in the middle of the argument list
-		p := filepath.Join(dir, fmt.Sprintf("missing%d.log", i))
+		p := fmt.Sprintf("missing%d.log", i)
 		at := len(files) / 2
 		files = append(files[:at], append([]string{p}, files[at:]...)...)
 	}
@@ -639,21 +995,35 @@ func materialise(d *desc, v *variant, dir string) (files []string, stdin []byte,
 }
 
 // execRare runs the binary; a run that does not finish within the (generous) deadline is retried once
-// and then recorded with exit status -9.
-func execRare(bin string, argv []string, stdin []byte, procs int, dir string) (int, []byte, string) {
+// and then recorded with exit status -9.  With a pace, stdin is a pipe that receives the lines in bursts.
+func execRare(bin string, argv []string, stdin []byte, pace [][2]int, procs int, dir string) (int, []byte, string) {
 	for attempt := 0; ; attempt++ {
 		ctx, cancel := context.WithTimeout(context.Background(), 60*time.Second)
 		cmd := exec.CommandContext(ctx, bin, argv...)
 		cmd.Dir = dir
 		cmd.Env = append(os.Environ(), fmt.Sprintf("GOMAXPROCS=%d", procs), "TERM=dumb", "COLUMNS=80")
-		if stdin != nil {
+		var feeder func()
+		if stdin != nil && len(pace) > 0 {
+			pw, err := cmd.StdinPipe()
+			if err != nil {
+				cancel()
+				return -8, nil, "EXEC " + err.Error()
+			}
+			feeder = func() { feedPaced(pw, stdin, pace) }
+		} else if stdin != nil {
 			cmd.Stdin = bytes.NewReader(stdin)
 		} else {
 			cmd.Stdin = nil
 		}
 		var so, se bytes.Buffer
 		cmd.Stdout, cmd.Stderr = &so, &se
-		err := cmd.Run()
+		err := cmd.Start()
+		if err == nil {
+			if feeder != nil {
+				go feeder()
+			}
+			err = cmd.Wait()
+		}
 		timedOut := ctx.Err() != nil
 		cancel()
 		if timedOut {
@@ -672,6 +1042,29 @@ func execRare(bin string, argv []string, stdin []byte, procs int, dir string) (i
 		}
 		return code, so.Bytes(), se.String()
 	}
+}
+
+// feedPaced writes bursts of whole lines, sleeps after each of them, writes the rest and closes the pipe
+func feedPaced(w io.WriteCloser, data []byte, pace [][2]int) {
+	defer w.Close()
+	pos := 0
+	for _, p := range pace {
+		end := pos
+		for k := 0; k < p[0] && end < len(data); k++ {
+			nl := bytes.IndexByte(data[end:], '\n')
+			if nl < 0 {
+				end = len(data)
+				break
+			}
+			end += nl + 1
+		}
+		if _, err := w.Write(data[pos:end]); err != nil {
+			return
+		}
+		pos = end
+		time.Sleep(time.Duration(p[1]) * time.Millisecond)
+	}
+	w.Write(data[pos:])
 }
 
 // B1: TLC's expected result against the run, CSV parsed by encoding/csv
